@@ -11,6 +11,7 @@ import LyModel.Conc.Drv
 import LyModel.Iff.Drv
 import LyModel.XPath.Drv
 import LyModel.YangStr.Drv
+import LyModel.LyHt.Drv
 /-! Dispatch table of the line-protocol driver: one handler per component. -/
 namespace LyModel.Drv
 
@@ -29,6 +30,7 @@ def dispatch (comp op : String) (args : List String) : String :=
   | "iff" => Iff.Drv.handle op args
   | "xpath" => XPath.Drv.handle op args
   | "yangstr" => YangStr.Drv.handle op args
+  | "ht" => LyHt.Drv.handle op args
   | _ => "err NoSuchComponent"
 
 end LyModel.Drv
